@@ -88,9 +88,17 @@ class CapFlow:
         `if not isinstance(p, Point2D)` only converts non-points), directly or through a callee."""
         M = self.M
         new = M.funcs.get("polygon.Point2D.__new__")
-        returns_same = new is not None and any(
-            isinstance(n, ast.Return) and n.value is not None and pat.root_name(n.value) in new.params[1:]
-            and isinstance(n.value, (ast.Name, ast.Subscript)) for n in ast.walk(new.node))
+        returns_same = False
+        if new is not None:
+            rooted = set(new.params[1:])
+            for n in ast.walk(new.node):          # locals bound to (an element of) an argument
+                if isinstance(n, ast.Assign) and isinstance(n.value, (ast.Name, ast.Subscript)) and pat.root_name(n.value) in rooted:
+                    rooted |= {t.id for t in n.targets if isinstance(t, ast.Name)}
+            for n in ast.walk(new.node):
+                if isinstance(n, ast.Return) and n.value is not None:
+                    vals = [n.value.body, n.value.orelse] if isinstance(n.value, ast.IfExp) else [n.value]
+                    if any(isinstance(v, (ast.Name, ast.Subscript)) and pat.root_name(v) in rooted for v in vals):
+                        returns_same = True
         caps = {q: set() for q in M.funcs}
         if not (returns_same and self.premise):
             return caps
@@ -143,8 +151,15 @@ class CapFlow:
         init = M.funcs.get("polygon.Point2D.__init__")
         if init is None:
             return {}
+        scope, todo = set(), [init.qname]
+        while todo:                                   # the constructor and the Point2D helpers it calls
+            q = todo.pop()
+            if q in scope or q not in M.funcs or M.funcs[q].cls != "Point2D":
+                continue
+            scope.add(q)
+            todo += list(self.ctx.graph.callees(q))
         caps = any(isinstance(n, ast.Call) and isinstance(n.func, ast.Attribute) and n.func.attr == "limit_denominator"
-                   for n in ast.walk(init.node))
+                   for q in scope for n in ast.walk(M.funcs[q].node))
         if not caps:
             return {}
         copying = {}
